@@ -342,7 +342,7 @@ func (m *urlModule) createURLPrototype() *goja.Object {
 		}
 		return ""
 	}, func(u *nodeURL, arg goja.Value) {
-		u.url.RawQuery = arg.String()
+		u.url.RawQuery = strings.TrimPrefix(arg.String(), "?")
 		fixRawQuery(u.url)
 		if u.searchParams != nil {
 			u.searchParams = parseSearchQuery(u.url.RawQuery)
